@@ -1,5 +1,7 @@
 //! Correspondence harness: runs the real crate (built from /repo's working tree) on generated
 //! inputs and dumps what it observed as JSON lines. It judges nothing.
+mod peak;
+mod poisson;
 mod table;
 mod util;
 
@@ -11,6 +13,8 @@ fn main() {
     let _ = &rest;
     match cmd {
         "table" => table::run(),
+        "peak" => peak::run(&rest),
+        "poisson" => poisson::run(&rest),
         _ => {
             eprintln!("usage: ce_harness <table|...> [args]");
             std::process::exit(2);
